@@ -127,6 +127,13 @@ def oracle_c04(res, cases):
         n += 1
         mark_methods(pt)
         mark_methods(qt)
+        # whether a function is a "plain method" (first parameter documented as renamable) is decided on the SOURCE: in the output
+        # the decorator may be spelled through an alias (`B=classmethod` ... `@B`), which must not change what is compared
+        fp = [x for x in ast.walk(pt) if isinstance(x, (ast.FunctionDef, ast.AsyncFunctionDef))]
+        fq = [x for x in ast.walk(qt) if isinstance(x, (ast.FunctionDef, ast.AsyncFunctionDef))]
+        if len(fp) == len(fq):
+            for x, y in zip(fp, fq):
+                y._in_class, y._plain_method = getattr(x, '_in_class', False), getattr(x, '_plain_method', False)
         (ci, bi), (co, bo) = interface(pt), interface(qt)
         if ci != co:
             d = sorted(map(repr, (ci - co).keys()))[:4]
